@@ -165,8 +165,10 @@ def registry():
                                       for o in (True, False) for st in (False, True) for eg in (True, False) for e in (1e-10, 0.5) for r in (1, 1e12)])
     # --- svd -------------------------------------------------------------------------------------------------------------
     simple('svd', lambda L, rk: [('e%g-r%g' % (e, r), [_dense(L)], dict(e=e, r=r)) for e in (1e-10, 0.5) for r in (1, 1e12)] +
-           [('d2', [lay(np.arange(6.0).reshape(2, 3), L)], {})])
-    simple('svd_matrix', lambda L, rk: [('', [lay(ref.dense(space.tt([4, 4], [1, 3, 1], 'gen', 0)), L)], dict(e=1e-10))])
+           [('d2', [lay(np.arange(6.0).reshape(2, 3), L)], {}), ('d1', [lay(np.array([1., 2., 0.5, -1.]), L)], {}),
+            ('d1-cap', [lay(np.array([1., 2., 0.5]), L)], dict(r=1))])
+    simple('svd_matrix', lambda L, rk: [('', [lay(ref.dense(space.tt([4, 4], [1, 3, 1], 'gen', 0)), L)], dict(e=1e-10)),
+                                        ('2x2', [lay(np.array([[1., 2.], [3., 5.]]), L)], {}), ('8x8', [lay(ref.dense(space.tt([8, 8], [1, 3, 1], 'gen', 0)), L)], {})])
     simple('matrix_svd', lambda L, rk: [('%dx%d' % s, [lay(space.core('gen', 1, s[0], s[1], 0, 0)[0], L)], dict(e=e)) for s in ((3, 4), (4, 3), (2, 2)) for e in (1e-10, 0.3)])
     simple('matrix_skeleton', lambda L, rk: [('%dx%d-%s-%s' % (s + (g, rel)), [lay(space.core('gen', 1, s[0], s[1], 0, 0)[0], L)], dict(give_to=g, rel=rel, e=0.1))
                                              for s in ((3, 4), (4, 3)) for g in 'mlr' for rel in (False, True)] +
@@ -215,6 +217,8 @@ def registry():
         y = lay(_f(space.grid_array([3, 2, 3])), L)
         out = [('const', [I, y, _base(L, rk)[0]], dict(nswp=2, info={})),
                ('w', [I, y, _base(L, rk)[0]], dict(nswp=2, info={}, w=lay(1.0 + np.arange(len(y)) % 3, L), lamb=0.1)),
+               ('lamb-none', [I, y, _base(L, rk)[0]], dict(nswp=2, info={}, lamb=None)),
+               ('lamb-none-w', [I, y, _base(L, rk)[0]], dict(nswp=2, info={}, lamb=None, w=lay(1.0 + np.arange(len(y)) % 3, L))),
                ('vld', [I, y, _base(L, rk)[0]], dict(nswp=2, info={}, I_vld=_grid(L), y_vld=lay(_f(space.grid_array([3, 2, 3])), L), e_vld=1e-12)),
                ('adaptive', [I, y, _base(L, rk)[0]], dict(nswp=2, info={}, r=3)),
                ('adaptive-stab', [I, y, _base(L, rk)[0]], dict(nswp=2, info={}, r=3, use_stab=True)),
@@ -229,6 +233,8 @@ def registry():
         y = lay(_f(space.grid_array([3, 3, 3])), L)
         A0 = ttl(space.tt([3, 3, 3], [1, rk, rk, 1], 'gen', 0, tag=94), L)
         return [('cheb', [X, y, A0, -1., 1.], dict(nswp=2, info={}, thr_pow=0.)),
+                ('lamb-none', [X, y, A0, -1., 1.], dict(nswp=2, info={}, thr_pow=0., lamb=None)),
+                ('fh', [X, y, A0], dict(nswp=1, info={}, fh=lambda x: teneva.func_basis(np.asarray(x, dtype=float), 3))),
                 ('vld', [X, y, A0, -1., 1.], dict(nswp=2, info={}, X_vld=lay(np.asarray(X)[::2], L), y_vld=lay(np.asarray(y)[::2], L), e_vld=1e-12)),
                 ('prune', [X, y, A0, -1., 1.], dict(nswp=2, info={}, thr_pow=0.5))]
     simple('als_func', _alsf)
@@ -267,12 +273,17 @@ def registry():
     simple('ind_tt_to_qtt', lambda L, rk: [('', [lay(np.array([[0, 3], [2, 1]]), L), 4], {}), ('one', [[1, 2], 4], {})])
     for nm in ('ind_to_poi',):
         simple(nm, lambda L, rk: [(k, [_grid(L), lay(np.array([-1., 0., 2.]), L), lay(np.array([1., 3., 5.]), L), lay(np.array([3, 2, 3]), L)], dict(kind=k))
-                                  for k in ('uni', 'cheb')] + [('scalar', [_grid(L), -1., 1., 3], {})])
+                                  for k in ('uni', 'cheb')] + [('scalar', [_grid(L), -1., 1., 3], {})] +
+               [('single-' + k, [lay(np.array([1, 0, 2]), L), lay(np.array([-1., 0., 2.]), L), lay(np.array([1., 3., 5.]), L), lay(np.array([3, 2, 3]), L)], dict(kind=k))
+                for k in ('uni', 'cheb')] + [('single-list', [[1, 0, 2], [-1., 0., 2.], [1., 3., 5.], [3, 2, 3]], {})])
     Xp = lambda L: lay(np.array([[0.1, 0.5, 2.5], [-3., 9., 4.], [1., 3., 5.]]), L)
     simple('poi_to_ind', lambda L, rk: [(k, [Xp(L), lay(np.array([-1., 0., 2.]), L), lay(np.array([1., 3., 5.]), L), lay(np.array([3, 2, 3]), L)], dict(kind=k))
-                                        for k in ('uni', 'cheb')] + [('scalar', [Xp(L), -1., 5., 4], {})])
+                                        for k in ('uni', 'cheb')] + [('scalar', [Xp(L), -1., 5., 4], {})] +
+           [('single-' + k, [lay(np.array([0.1, 0.5, 2.5]), L), lay(np.array([-1., 0., 2.]), L), lay(np.array([1., 3., 5.]), L), lay(np.array([3, 2, 3]), L)], dict(kind=k))
+            for k in ('uni', 'cheb')] + [('single-floatn', [lay(np.array([0.1, 0.5, 2.5]), L), -1., 5., lay(np.array([3., 2., 3.]), L)], {})])
     simple('poi_scale', lambda L, rk: [(str(k), [Xp(L), lay(np.array([-1., 0., 2.]), L), lay(np.array([1., 3., 5.]), L)], dict(kind=k))
-                                       for k in ('uni', 'cheb', [2., 3.])])
+                                       for k in ('uni', 'cheb', [2., 3.])] +
+           [('single-' + str(k), [lay(np.array([0.1, 0.5, 2.5]), L), lay(np.array([-1., 0., 2.]), L), lay(np.array([1., 3., 5.]), L)], dict(kind=k)) for k in ('uni', 'cheb')])
     simple('cdf_confidence', lambda L, rk: [('', [lay(np.array([0.1, 0.5, 0.9]), L)], {})])
     simple('cdf_getter', lambda L, rk: [('', [lay(np.array([3., 1., 2., 2.]), L)], {})])
     # --- maxvol / optima --------------------------------------------------------------------------------------------------------------------------
